@@ -138,11 +138,11 @@ theorem encodeAll_some_roundtrip (C : Crypto) (hC : C.Lawful) (ctx : Ctx) (cs : 
   | cons w ws ih =>
     intro a
     obtain ⟨wb, r⟩ := w
-    obtain ⟨a', h2, h3⟩ := ih (encPayload C a 0xffff wb).2
+    obtain ⟨a', h2, h3⟩ := ih (encPayload C a ctx.kind.payloadLimit wb).2
     refine ⟨a', ?_, ?_⟩
     · simp only [encodeAll, encode]; exact h2
     · simp only [encodeAll, encode]
-      rw [run_concat _ G _ _ _ _ _ (payload_roundtrip C hC a wb), h3]
+      rw [run_concat _ G _ _ _ _ _ (payload_roundtrip C hC a _ (payloadLimit_good ctx.kind) wb), h3]
       simp
 
 end Octo.Ss
